@@ -133,11 +133,24 @@ PrependForeign(k, g, h, withProduct) ==
   /\ last' = [op |-> "prependforeign", w |-> 0, k |-> k, res |-> "rejected", g |-> g, h |-> h, p |-> withProduct]
   /\ UNCHANGED <<rev, wit, upd, tobj>>
 
+\* Witness.Update with a genuinely signed update of ANOTHER accumulator chain under the same issuer key (events 0..j of that
+\* chain, its accumulator of index j signed at time t): whatever j and t are, the witness stays exactly as it was. A foreign
+\* accumulator with the witness's own index and a newer time is refused (fix 964b19b: it used to be taken over); one with a
+\* smaller or equal index or an older time is ignored; one with a larger index fails the final check of the new witness value.
+ApplyForeign(w, j, t) ==
+  /\ wit[w].issued /\ nstep < MaxApply /\ j \in 0..MaxRev
+  /\ nstep' = nstep + 1
+  /\ last' = [op |-> "applyforeign", w |-> w, k |-> 0, g |-> j, h |-> t, p |-> FALSE,
+              res |-> IF j = wit[w].idx THEN (IF t <= WT(w) THEN "noop" ELSE "rejected")
+                      ELSE IF j < wit[w].idx THEN "noop" ELSE "invalidated"]
+  /\ UNCHANGED <<rev, wit, upd, tobj>>
+
 Next == \/ RevokeOther
         \/ \E w \in W : RevokeWit(w)
         \/ \E w \in W, g \in BOOLEAN : Issue(w, g)
         \/ \E k \in U, f \in 0..(MaxRev+1), t \in {0, 1} : MakeUpdate(k, f, t)
         \/ \E w \in W, k \in U : Apply(w, k)
+        \/ \E w \in W, j \in 0..MaxRev, t \in {0, 1} : ApplyForeign(w, j, t)
         \/ \E k \in U, g \in 0..MaxRev, h \in 0..MaxRev, p \in BOOLEAN : Prepend(k, g, h, p) \/ PrependForeign(k, g, h, p)
 Spec == Init /\ [][Next]_vars
 
@@ -155,7 +168,7 @@ Reach == (\A w \in W : ReachW(w)) /\ (\A k \in U : ReachU(k))
              /\ (\A w \in W : Cardinality({i \in 1..n : rev[i] = w}) <= 1)
 
 \* a good, non-revoked witness is never refused by a legitimate update
-NoSpuriousFailure == [][last'.res = "invalidated" => ~wit[last'.w].good]_vars
+NoSpuriousFailure == [][last'.op = "apply" /\ last'.res = "invalidated" => ~wit[last'.w].good]_vars
 \* "revoked" is reported only for witnesses whose value was removed after the index they are at
 RevokedReportedRight == [][last'.res = "revoked" => RevokedAt(last'.w) # 0 /\ RevokedAt(last'.w) > wit[last'.w].idx]_vars
 \* a revoked witness never reaches an accumulator from which its value was removed
@@ -165,7 +178,7 @@ MonotoneA == \A w \in W : wit[w].issued => (wit'[w].idx = wit[w].idx /\ tobj'[wi
 Monotone == [][MonotoneA]_vars
 \* Witness.Updated never runs ahead of the accumulator the witness holds
 UpdatedTracks == \A w \in W : wit[w].issued /\ wit[w].up # None => wit[w].up <= WT(w)
-FailedUpdateNoChange == [][last'.op = "apply" /\ last'.res \in {"toonew", "revoked", "invalidated", "noop"} => wit' = wit /\ tobj' = tobj]_vars
+FailedUpdateNoChange == [][(last'.op = "apply" /\ last'.res \in {"toonew", "revoked", "invalidated", "noop"}) \/ last'.op = "applyforeign" => wit' = wit /\ tobj' = tobj]_vars
 \* completeness: an update whose window reaches back to the witness brings a good, unrevoked witness to its accumulator
 Advances == [][last'.op = "apply" /\ wit[last'.w].good /\ upd[last'.k].first <= wit[last'.w].idx + 1
                /\ upd[last'.k].first <= upd[last'.k].last /\ upd[last'.k].last > wit[last'.w].idx
